@@ -164,7 +164,6 @@ static void c08_run(vf_case *c)
     }
     {   /* workspace sweep */
         vf_tag(c, "mode=sweep");
-        if (sizeof(int_t) == 8) { vf_note(c, "i64ws"); }
         size_t G = generous_lwork(P, n, A.nnz); arena ar; arena_init(&ar, G);
         /* find the smallest sufficient length on a 4-byte grid by bisection (monotone in practice; the sweep below does not rely on it) */
         size_t lo = 0, hi = G; int align4 = rng_bool(r, 0.5);
